@@ -342,7 +342,7 @@ static int pick_next(int self_ok)
 		if (best >= 0)
 			return best;
 		for (i = 0; i < np; i++)
-			if (poll[i] != held && (best < 0 || poll[i] < best)) best = poll[i];
+			if (poll[i] != held && !(hold_at && np > 1 && poll[i] == self) && (best < 0 || poll[i] < best)) best = poll[i];	/* with --hold-at pollers take turns */
 		if (best >= 0)
 			return best;
 		if (held >= 0 && held < nthreads && (held != self || self_ok) && runnable(held))
